@@ -85,3 +85,163 @@ namespace Py
 theorem earlyReturn_eq {ρ α : Type} (r : ρ) :
     (EarlyReturnT.return r : EarlyReturnT ρ R α) = (pure (Except.error r) : R (Except ρ α)) := rfl
 end Py
+
+namespace Py
+
+/-! ## character classes: inclusion by enumeration of the source class -/
+
+theorem of_isAsciiDigit {Q : Nat → Bool} (hQ : (List.range' 48 10).all Q = true) {c : Nat}
+    (hc : isAsciiDigit c = true) : Q c = true := by
+  have h := isAsciiDigit_iff.mp hc
+  exact List.all_eq_true.mp hQ c (List.mem_range'_1.mpr ⟨h.1, by omega⟩)
+
+theorem of_isAsciiUpper {Q : Nat → Bool} (hQ : (List.range' 65 26).all Q = true) {c : Nat}
+    (hc : isAsciiUpper c = true) : Q c = true := by
+  simp only [isAsciiUpper, Bool.and_eq_true, decide_eq_true_eq] at hc
+  exact List.all_eq_true.mp hQ c (List.mem_range'_1.mpr ⟨hc.1, by omega⟩)
+
+theorem of_isAsciiLower {Q : Nat → Bool} (hQ : (List.range' 97 26).all Q = true) {c : Nat}
+    (hc : isAsciiLower c = true) : Q c = true := by
+  simp only [isAsciiLower, Bool.and_eq_true, decide_eq_true_eq] at hc
+  exact List.all_eq_true.mp hQ c (List.mem_range'_1.mpr ⟨hc.1, by omega⟩)
+
+theorem of_contains {A : Str} {Q : Nat → Bool} (hQ : A.all Q = true) {c : Nat}
+    (hc : A.contains c = true) : Q c = true :=
+  List.all_eq_true.mp hQ c (by simpa using hc)
+
+/-- a character between two bounds (regex class `[a-b]`) -/
+theorem of_range {Q : Nat → Bool} {lo hi : Nat} (hQ : (List.range' lo (hi + 1 - lo)).all Q = true) {c : Nat}
+    (hc : lo ≤ c ∧ c ≤ hi) : Q c = true :=
+  List.all_eq_true.mp hQ c (List.mem_range'_1.mpr ⟨hc.1, by omega⟩)
+
+example : ([48, 49, 50, 51, 52, 53, 54, 55, 56, 57, 65] : Str).contains 51 = true :=
+  of_isAsciiDigit (Q := fun c => ([48, 49, 50, 51, 52, 53, 54, 55, 56, 57, 65] : Str).contains c) (by decide) (by decide)
+
+/-! ## the `all(x in alphabet for x in number)` gates -/
+
+theorem all_map_strIn_chars (A s : Str) :
+    ((chars s).map (fun x => strIn x A)).all id = s.all (fun c => A.contains c) := by
+  induction s with
+  | nil => rfl
+  | cons c t ih => simp only [chars_cons, List.map_cons, List.all_cons, id, strIn_single, ih]
+
+theorem any_map_not_strIn_chars (A s : Str) :
+    ((chars s).map (fun x => !strIn x A)).any id = !(s.all (fun c => A.contains c)) := by
+  induction s with
+  | nil => rfl
+  | cons c t ih => simp only [chars_cons, List.map_cons, List.any_cons, List.all_cons, id, strIn_single, ih, Bool.not_and]
+
+theorem all_strIn_chars (A s : Str) :
+    (chars s).all (fun x => strIn x A) = s.all (fun c => A.contains c) := by
+  induction s with
+  | nil => rfl
+  | cons c t ih => simp only [chars_cons, List.all_cons, strIn_single, ih]
+
+theorem any_not_strIn_chars (A s : Str) :
+    (chars s).any (fun x => !strIn x A) = !(s.all (fun c => A.contains c)) := by
+  induction s with
+  | nil => rfl
+  | cons c t ih => simp only [chars_cons, List.any_cons, List.all_cons, strIn_single, ih, Bool.not_and]
+
+/-- length gates `len(number) in (a, b)` -/
+theorem contains_int_two (a b x : Int) : (([a, b] : List Int).contains x = true) = (x = a ∨ x = b) := by
+  simp
+theorem contains_int_three (a b c x : Int) :
+    (([a, b, c] : List Int).contains x = true) = (x = a ∨ x = b ∨ x = c) := by
+  simp
+theorem contains_int_four (a b c d x : Int) :
+    (([a, b, c, d] : List Int).contains x = true) = (x = a ∨ x = b ∨ x = c ∨ x = d) := by
+  simp
+theorem contains_int_two_false (a b x : Int) : (([a, b] : List Int).contains x = false) = (x ≠ a ∧ x ≠ b) := by
+  simp
+theorem contains_int_three_false (a b c x : Int) :
+    (([a, b, c] : List Int).contains x = false) = (x ≠ a ∧ x ≠ b ∧ x ≠ c) := by
+  simp
+theorem contains_int_four_false (a b c d x : Int) :
+    (([a, b, c, d] : List Int).contains x = false) = (x ≠ a ∧ x ≠ b ∧ x ≠ c ∧ x ≠ d) := by
+  simp
+
+end Py
+
+namespace Py
+
+/-! ## re-compaction of an accepted string is the identity (by character class) -/
+
+theorem cleanP_of_class {P : Nat → Bool} {s d : Str} (hs : AllIn P s)
+    (hP : ∀ c, P c = true → c < 128 ∧ c ≠ 96 ∧ d.contains c = false) : cleanP s d = s :=
+  cleanP_eq_self (fun c hc => by
+    obtain ⟨h1, h2, h3⟩ := hP c (hs c hc)
+    exact ⟨cm_of_ascii_ne h1 h2, h3⟩)
+
+theorem strip_of_class {P : Nat → Bool} {s : Str} (hs : AllIn P s)
+    (hP : ∀ c, P c = true → c < 128 ∧ ¬ ((9 ≤ c ∧ c ≤ 13) ∨ (28 ≤ c ∧ c ≤ 32))) : strip s = s :=
+  strip_eq_self_of_allIn P (fun c hc => by
+    obtain ⟨h1, h2⟩ := hP c hc
+    cases h : Uni.isSpace c
+    · rfl
+    · exact absurd ((Uni.isSpace_ascii_iff h1).mp h) h2) s hs
+
+theorem upper_of_class {P : Nat → Bool} {s : Str} (hs : AllIn P s)
+    (hP : ∀ c, P c = true → c < 128 ∧ isAsciiLower c = false) : upper s = s :=
+  upper_eq_self_of_no_lower (fun c hc => by simpa [isAscii] using (hP c (hs c hc)).1)
+    (fun c hc => (hP c (hs c hc)).2)
+
+theorem allIn_of_all {P : Nat → Bool} {s : Str} (h : s.all P = true) : AllIn P s := AllIn.all_eq_true.mp h
+
+/-- alphabet gates: `all(c in A for c in s)` -/
+theorem cleanP_of_alphabet {A s d : Str} (hs : s.all (fun c => A.contains c) = true)
+    (hA : A.all (fun c => decide (c < 128) && (c != 96) && !d.contains c) = true) : cleanP s d = s :=
+  cleanP_of_class (allIn_of_all hs) (fun c hc => by
+    have := of_contains hA hc
+    simp only [Bool.and_eq_true, decide_eq_true_eq, bne_iff_ne, ne_eq, Bool.not_eq_true'] at this
+    exact ⟨this.1.1, this.1.2, this.2⟩)
+
+theorem strip_of_alphabet {A s : Str} (hs : s.all (fun c => A.contains c) = true)
+    (hA : A.all (fun c => decide (c < 128) && !((decide (9 ≤ c) && decide (c ≤ 13)) || (decide (28 ≤ c) && decide (c ≤ 32)))) = true) :
+    strip s = s :=
+  strip_of_class (allIn_of_all hs) (fun c hc => by
+    have := of_contains hA hc
+    simp only [Bool.and_eq_true, decide_eq_true_eq, Bool.not_eq_true', Bool.or_eq_false_iff,
+      Bool.and_eq_false_iff, decide_eq_false_iff_not] at this
+    refine ⟨this.1, ?_⟩
+    omega)
+
+theorem upper_of_alphabet {A s : Str} (hs : s.all (fun c => A.contains c) = true)
+    (hA : A.all (fun c => decide (c < 128) && !isAsciiLower c) = true) : upper s = s :=
+  upper_of_class (allIn_of_all hs) (fun c hc => by
+    have := of_contains hA hc
+    simp only [Bool.and_eq_true, decide_eq_true_eq, Bool.not_eq_true'] at this
+    exact this)
+
+end Py
+
+namespace Py
+
+/-! ## indexing with the exact position (overrides the weaker specs of `Lemmas.Hoare`) -/
+
+/-- the list position Python's `x[i]` refers to -/
+def pyIdx (n : Nat) (i : Int) : Nat := (if i < 0 then (n : Int) + i else i).toNat
+
+theorem getItemL_ok2 {α : Type} (s : List α) (i : Int) (h : -(s.length : Int) ≤ i ∧ i < s.length) :
+    Ok (getItemL s i) (fun r => r ∈ s ∧ s[pyIdx s.length i]? = some r) := by
+  unfold getItemL pyIdx
+  simp only []
+  have hj : 0 ≤ (if i < 0 then (s.length : Int) + i else i) ∧ (if i < 0 then (s.length : Int) + i else i) < s.length := by
+    split <;> omega
+  rw [if_pos hj]
+  have hlt : (if i < 0 then (s.length : Int) + i else i).toNat < s.length := by omega
+  rw [List.getElem?_eq_getElem hlt]
+  exact ⟨_, rfl, List.getElem_mem _, rfl⟩
+
+@[spec high] theorem getItemL_spec2 {α : Type} (s : List α) (i : Int) (h : -(s.length : Int) ≤ i ∧ i < s.length) :
+    ⦃⌜True⌝⦄ getItemL s i ⦃post⟨fun r => ⌜r ∈ s ∧ s[pyIdx s.length i]? = some r⌝, fun _ => ⌜False⌝⟩⦄ :=
+  triple_of_Ok (getItemL_ok2 s i h)
+
+@[spec high] theorem getItem_spec2 (s : Str) (i : Int) (h : -(s.length : Int) ≤ i ∧ i < s.length) :
+    ⦃⌜True⌝⦄ getItem s i
+    ⦃post⟨fun r => ⌜∃ c, c ∈ s ∧ r = [c] ∧ s[pyIdx s.length i]? = some c⌝, fun _ => ⌜False⌝⟩⦄ := by
+  apply triple_of_Ok
+  obtain ⟨c, hc, hm, hi⟩ := getItemL_ok2 s i h
+  exact ⟨[c], by simp [getItem, hc], c, hm, rfl, hi⟩
+
+end Py
